@@ -83,6 +83,12 @@ type wFunc struct {
 	aliases     map[types.Object]ast.Expr // locals defined once from a version-only expression
 	recvVer     bool                      // the receiver's Version field is the protocol version (the decoder takes a version)
 	wp          *wPaths
+	keepPush    bool // specialise without turning push/pop into tokens (balance check)
+	coders      map[types.Object]bool // the coder parameter and the sub-decoders obtained from it (getSubset)
+	prog        *Prog
+	errBranch   int                   // inside the body of `if err != nil`
+	peekVars    map[types.Object]bool // locals holding a looked-ahead (not consumed) value
+	depth       int                   // helper inlining depth
 }
 
 var tokDual = map[string]string{
@@ -128,10 +134,14 @@ var tokExpand = map[string][2]string{
 }
 
 // coder methods without effect on the wire position
-var tokNeutral = map[string]bool{"offset": true, "metricRegistry": true}
+var tokNeutral = map[string]bool{"offset": true, "metricRegistry": true, "remaining": true, "peek": true, "peekInt8": true}
 
 func (w *wFunc) unsup(pos token.Pos, format string, a ...interface{}) {
 	w.unsupported = append(w.unsupported, fmt.Sprintf("%s: ", w.fset.Position(pos).String()[strings.LastIndex(w.fset.Position(pos).String(), "/")+1:])+fmt.Sprintf(format, a...))
+}
+
+func (w *wFunc) isCoder(o types.Object) bool {
+	return o != nil && (o == w.coder || w.coders[o])
 }
 
 func (w *wFunc) mentionsRecv(n ast.Node) bool {
@@ -151,12 +161,12 @@ func (w *wFunc) mentionsCoderBeyond(n ast.Node, method string) bool {
 	ast.Inspect(n, func(x ast.Node) bool {
 		if call, ok := x.(*ast.CallExpr); ok {
 			if sel, ok := call.Fun.(*ast.SelectorExpr); ok && sel.Sel.Name == method && len(call.Args) == 0 {
-				if id, ok := sel.X.(*ast.Ident); ok && w.info.Uses[id] == w.coder {
+				if id, ok := sel.X.(*ast.Ident); ok && w.isCoder(w.info.Uses[id]) {
 					return false
 				}
 			}
 		}
-		if id, ok := x.(*ast.Ident); ok && w.info.Uses[id] == w.coder {
+		if id, ok := x.(*ast.Ident); ok && w.isCoder(w.info.Uses[id]) {
 			found = true
 		}
 		return !found
@@ -170,7 +180,7 @@ func (w *wFunc) mentionsCoder(n ast.Node) bool {
 		return false
 	}
 	ast.Inspect(n, func(x ast.Node) bool {
-		if id, ok := x.(*ast.Ident); ok && w.info.Uses[id] == w.coder {
+		if id, ok := x.(*ast.Ident); ok && w.isCoder(w.info.Uses[id]) {
 			found = true
 		}
 		return !found
@@ -269,7 +279,7 @@ func (w *wFunc) coderCall(call *ast.CallExpr, sinks []ast.Expr) (*wNode, bool) {
 	if !ok {
 		return nil, false
 	}
-	if id, ok := sel.X.(*ast.Ident); ok && w.info.Uses[id] == w.coder {
+	if id, ok := sel.X.(*ast.Ident); ok && w.isCoder(w.info.Uses[id]) {
 		name := sel.Sel.Name
 		if k, ok := tokDual[name]; ok {
 			arg := ""
@@ -318,14 +328,31 @@ func (w *wFunc) coderCall(call *ast.CallExpr, sinks []ast.Expr) (*wNode, bool) {
 			return &wNode{K: wPop, Pos: call.Pos()}, true
 		}
 		if tokNeutral[name] {
+			if (name == "peek" || name == "peekInt8") && len(sinks) > 0 {
+				if sid, ok := sinks[0].(*ast.Ident); ok {
+					if o := w.info.ObjectOf(sid); o != nil {
+						w.peekVars[o] = true
+					}
+				}
+			}
 			return nil, true
+		}
+		if name == "getSubset" && w.side == "decode" && len(sinks) > 0 && len(call.Args) == 1 {
+			// sub, err := pd.getSubset(n): the bytes of the frame whose length n was read just before are read
+			// through sub; on the wire nothing happens here
+			if sid, ok := sinks[0].(*ast.Ident); ok {
+				if o := w.info.ObjectOf(sid); o != nil {
+					w.coders[o] = true
+					return nil, true
+				}
+			}
 		}
 		w.unsup(call.Pos(), "coder method %s is not modelled", name)
 		return nil, true
 	}
 	// x.encode(pe, ...) / x.decode(pd, ...)
 	if (sel.Sel.Name == "encode" || sel.Sel.Name == "decode") && len(call.Args) >= 1 {
-		if id, ok := ast.Unparen(call.Args[0]).(*ast.Ident); ok && w.info.Uses[id] == w.coder {
+		if id, ok := ast.Unparen(call.Args[0]).(*ast.Ident); ok && w.isCoder(w.info.Uses[id]) {
 			if sel.Sel.Name != w.side {
 				w.unsup(call.Pos(), "%s called from %s", sel.Sel.Name, w.side)
 				return nil, true
@@ -419,10 +446,162 @@ func (w *wFunc) exprItems(e ast.Expr, sinks []ast.Expr) []*wNode {
 			return []*wNode{n}
 		}
 	}
-	if w.mentionsCoder(e) {
+	if call, ok := ast.Unparen(e).(*ast.CallExpr); ok {
+		if items, is := w.helperCall(call, sinks); is {
+			return items
+		}
+	}
+	if w.mentionsCoderOtherThanNeutral(e) {
 		w.unsup(e.Pos(), "the coder is used in an expression that is not modelled: %s", exprText(w.fset, e))
 	}
 	return nil
+}
+
+func (w *wFunc) isRemaining(e ast.Expr) bool {
+	call, ok := ast.Unparen(e).(*ast.CallExpr)
+	if !ok {
+		return false
+	}
+	sel, ok := call.Fun.(*ast.SelectorExpr)
+	if !ok || sel.Sel.Name != "remaining" {
+		return false
+	}
+	id, ok := sel.X.(*ast.Ident)
+	return ok && w.isCoder(w.info.Uses[id])
+}
+
+// isErrorConstructor: errors.New, fmt.Errorf and the like (functions of other packages returning an error), and
+// conversions to an error type.
+func (w *wFunc) isErrorConstructor(call *ast.CallExpr) bool {
+	if tv, ok := w.info.Types[call.Fun]; ok && tv.IsType() {
+		return true
+	}
+	if sel, ok := call.Fun.(*ast.SelectorExpr); ok {
+		if id, ok := sel.X.(*ast.Ident); ok {
+			if _, isPkg := w.info.ObjectOf(id).(*types.PkgName); isPkg {
+				return true
+			}
+		}
+	}
+	return false
+}
+
+// onlyPeeked: the condition compares looked-ahead values with constants.
+func (w *wFunc) onlyPeeked(e ast.Expr) bool {
+	seen, ok := false, true
+	ast.Inspect(e, func(n ast.Node) bool {
+		if id, isId := n.(*ast.Ident); isId {
+			o := w.info.Uses[id]
+			if o == nil {
+				return true
+			}
+			if w.peekVars[o] {
+				seen = true
+				return true
+			}
+			if _, isConst := o.(*types.Const); isConst {
+				return true
+			}
+			if _, isNil := o.(*types.Nil); isNil {
+				return true
+			}
+			ok = false
+		}
+		return true
+	})
+	return seen && ok
+}
+
+// mentionsCoderOtherThanNeutral: the coder occurs other than as the receiver of a position-neutral method.
+func (w *wFunc) mentionsCoderOtherThanNeutral(n ast.Node) bool {
+	found := false
+	ast.Inspect(n, func(x ast.Node) bool {
+		if call, ok := x.(*ast.CallExpr); ok {
+			if sel, ok := call.Fun.(*ast.SelectorExpr); ok && tokNeutral[sel.Sel.Name] {
+				if id, ok := sel.X.(*ast.Ident); ok && w.isCoder(w.info.Uses[id]) {
+					for _, a := range call.Args {
+						if w.mentionsCoder(a) {
+							found = true
+						}
+					}
+					return false
+				}
+			}
+		}
+		if id, ok := x.(*ast.Ident); ok && w.isCoder(w.info.Uses[id]) {
+			found = true
+		}
+		return !found
+	})
+	return found
+}
+
+// helperCall: a function or method of the package that is handed the coder (b.encodeRecords(pe), magicValue(pd)):
+// its own grammar is spliced in.
+func (w *wFunc) helperCall(call *ast.CallExpr, sinks []ast.Expr) ([]*wNode, bool) {
+	idx := -1
+	for i, a := range call.Args {
+		if id, ok := ast.Unparen(a).(*ast.Ident); ok && w.isCoder(w.info.Uses[id]) {
+			if idx >= 0 {
+				return nil, false
+			}
+			idx = i
+		} else if w.mentionsCoder(a) {
+			return nil, false
+		}
+	}
+	if idx < 0 || w.prog == nil || w.depth > 3 {
+		return nil, false
+	}
+	var obj types.Object
+	switch f := call.Fun.(type) {
+	case *ast.Ident:
+		obj = w.info.Uses[f]
+	case *ast.SelectorExpr:
+		obj = w.info.Uses[f.Sel]
+		if w.mentionsCoder(f.X) {
+			return nil, false
+		}
+	}
+	fn, ok := obj.(*types.Func)
+	if !ok {
+		return nil, false
+	}
+	fi := w.prog.funcByObj[fn]
+	if fi == nil || fi.Body == nil || fi.Sig.Params().Len() <= idx {
+		return nil, false
+	}
+	h := &wFunc{fi: fi, side: w.side, info: fi.Pkg.TypesInfo, fset: w.fset, consts: map[int64]bool{}, lenSinks: map[types.Object]bool{},
+		aliases: map[types.Object]ast.Expr{}, recvVer: false, coders: map[types.Object]bool{}, prog: w.prog, peekVars: map[types.Object]bool{}, depth: w.depth + 1}
+	h.coder = fi.Sig.Params().At(idx)
+	if fi.Sig.Recv() != nil {
+		h.recv = fi.Sig.Recv()
+	}
+	items := h.stmts(fi.Body.List)
+	for _, u := range h.unsupported {
+		w.unsupported = append(w.unsupported, "in helper "+fi.Key+": "+u)
+	}
+	if len(h.guards) > 0 {
+		w.unsup(call.Pos(), "helper %s has version guards", fi.Key)
+	}
+	// a helper that only looks ahead returns a looked-ahead value
+	if len(stripEnd(items)) == 0 && len(sinks) > 0 {
+		if sid, ok := sinks[0].(*ast.Ident); ok {
+			if o := w.info.ObjectOf(sid); o != nil {
+				w.peekVars[o] = true
+			}
+		}
+	}
+	// the helper's own returns end the helper, not the caller: only straight-line helpers are spliced
+	flat := stripEnd(items)
+	for _, n := range flat {
+		if n.K == wEnd || n.K == wAlt || n.K == wAbort || n.K == wCont {
+			// alternatives inside helpers whose branches all carry no tokens are dropped by stmts already
+			w.unsup(call.Pos(), "helper %s is not straight-line", fi.Key)
+			return nil, true
+		}
+	}
+	return flat, true
 }
 
 func (w *wFunc) stmt(s ast.Stmt) (items []*wNode, stop bool) {
@@ -490,6 +669,10 @@ func (w *wFunc) stmt(s ast.Stmt) (items []*wNode, stop bool) {
 		if x.Tok == token.CONTINUE && x.Label == nil && w.loopDepth > 0 {
 			return []*wNode{{K: wCont, Pos: x.Pos()}}, true
 		}
+		if x.Tok == token.BREAK && x.Label == nil && w.loopDepth > 0 && w.side == "decode" {
+			// the decoder gives up on the rest of the collection (partial trailing data): outside the round trip
+			return []*wNode{{K: wAbort, Pos: x.Pos()}}, true
+		}
 		w.unsup(s.Pos(), "%s is not modelled", x.Tok)
 		return nil, false
 	case *ast.BlockStmt:
@@ -516,10 +699,17 @@ func (w *wFunc) stmt(s ast.Stmt) (items []*wNode, stop bool) {
 					}
 					if o := w.info.Uses[rv]; o != nil {
 						if _, isVar := o.(*types.Var); isVar && o.Parent() != o.Pkg().Scope() {
+							if w.errBranch > 0 {
+								return append(items, &wNode{K: wAbort, Pos: x.Pos()}), true
+							}
 							// a local error variable: the result of the last coder call
 							return append(items, &wNode{K: wEnd, Pos: x.Pos()}), true
 						}
 					}
+				}
+				if call, ok := ast.Unparen(r).(*ast.CallExpr); ok && !w.isErrorConstructor(call) && w.errBranch == 0 {
+					// the result of another function of the package (return m.decodeSet()): may well be nil
+					return append(items, &wNode{K: wEnd, Pos: x.Pos()}), true
 				}
 				return append(items, &wNode{K: wAbort, Pos: x.Pos()}), true
 			}
@@ -543,6 +733,21 @@ func (w *wFunc) stmt(s ast.Stmt) (items []*wNode, stop bool) {
 			}
 			return items, false
 		}
+		if w.isErrCheck(x.Cond) {
+			// if err != nil { ... }: whatever the body does, the path is an error path (a body that returns nil
+			// for partial trailing data included); an else branch continues the sequence
+			w.errBranch++
+			body := w.stmts(x.Body.List)
+			w.errBranch--
+			if terminated(body) || len(body) == 0 {
+				if x.Else != nil {
+					e, st := w.stmt(x.Else)
+					items = append(items, e...)
+					return items, st
+				}
+				return items, false
+			}
+		}
 		thenI := w.stmts(x.Body.List)
 		var elseI []*wNode
 		if x.Else != nil {
@@ -561,6 +766,16 @@ func (w *wFunc) stmt(s ast.Stmt) (items []*wNode, stop bool) {
 			}
 		}
 		alt := &wNode{K: wAlt, Cond: cond, Then: thenI, Else: elseI, Pos: x.Pos()}
+		if w.onlyPeeked(cond) {
+			// a decision on looked-ahead bytes that ends the decoding: the decoder stops reading (foreign or
+			// trailing data), outside the round trip
+			if len(thenI) == 1 && thenI[0].K == wEnd {
+				thenI[0] = &wNode{K: wAbort, Pos: thenI[0].Pos}
+			}
+			if len(elseI) == 1 && elseI[0].K == wEnd {
+				elseI[0] = &wNode{K: wAbort, Pos: elseI[0].Pos}
+			}
+		}
 		if m, _ := w.versionUse(cond); m {
 			alt.Version = true
 			w.noteGuard(cond)
@@ -571,6 +786,21 @@ func (w *wFunc) stmt(s ast.Stmt) (items []*wNode, stop bool) {
 		if x.Init != nil {
 			init, _ := w.stmt(x.Init)
 			items = append(items, init...)
+		}
+		if x.Tag != nil {
+			if t := w.info.TypeOf(x.Tag); t != nil && t.String() == "error" && !w.mentionsCoder(x.Body) {
+				// switch err { case nil: ...; default: return err }: only the nil case continues
+				for _, c := range x.Body.List {
+					cc := c.(*ast.CaseClause)
+					for _, v := range cc.List {
+						if id, ok := ast.Unparen(v).(*ast.Ident); ok && id.Name == "nil" {
+							body := w.stmts(cc.Body)
+							return append(items, body...), terminated(body)
+						}
+					}
+				}
+				return items, false
+			}
 		}
 		if !w.mentionsCoder(x.Body) {
 			// no wire effect; a switch all of whose clauses return an error ends the grammar only if there is a default
@@ -630,7 +860,7 @@ func (w *wFunc) stmt(s ast.Stmt) (items []*wNode, stop bool) {
 		items = append(items, chain)
 		return items, terminated([]*wNode{chain})
 	case *ast.ForStmt:
-		if x.Init != nil && w.mentionsCoder(x.Init) || x.Cond != nil && w.mentionsCoder(x.Cond) || x.Post != nil && w.mentionsCoder(x.Post) {
+		if x.Init != nil && w.mentionsCoder(x.Init) || x.Cond != nil && w.mentionsCoderOtherThanNeutral(x.Cond) || x.Post != nil && w.mentionsCoder(x.Post) {
 			w.unsup(x.Pos(), "the coder is used in a loop header")
 		}
 		w.loopDepth++
@@ -642,6 +872,8 @@ func (w *wFunc) stmt(s ast.Stmt) (items []*wNode, stop bool) {
 		count := ""
 		if b, ok := x.Cond.(*ast.BinaryExpr); ok && b.Op == token.LSS {
 			count = exprText(w.fset, b.Y)
+		} else if b, ok := x.Cond.(*ast.BinaryExpr); ok && b.Op == token.GTR && w.isRemaining(b.X) {
+			count = "until the frame is read"
 		} else {
 			w.unsup(x.Pos(), "loop without an upper bound of the form i < n")
 		}
@@ -676,7 +908,7 @@ func (w *wFunc) stmt(s ast.Stmt) (items []*wNode, stop bool) {
 
 func (p *Prog) wireExtract(fi *FuncInfo, side string, recvVer bool) *wFunc {
 	w := &wFunc{fi: fi, side: side, info: fi.Pkg.TypesInfo, fset: p.fset, consts: map[int64]bool{}, lenSinks: map[types.Object]bool{},
-		aliases: map[types.Object]ast.Expr{}, recvVer: recvVer}
+		aliases: map[types.Object]ast.Expr{}, recvVer: recvVer, coders: map[types.Object]bool{}, prog: p, peekVars: map[types.Object]bool{}}
 	params := fi.Sig.Params()
 	if params.Len() == 0 {
 		w.unsupported = append(w.unsupported, "no coder parameter")
@@ -894,7 +1126,8 @@ func (w *wFunc) inlined(items []*wNode, ver int64, pairs map[string]*wirePair, d
 				continue
 			}
 			body := f.specialise(f.items, sv)
-			if isAbort(body) {
+			if isAbort(body) || hasAlt(body) {
+				// alternatives of a block carry the block's own continuation, not the caller's: keep it opaque
 				out = append(out, n)
 				continue
 			}
@@ -1004,6 +1237,21 @@ func (w *wFunc) specK(items []*wNode, env wEnv, ver int64, k func(wEnv) []*wNode
 		return append([]*wNode{{K: wRep, Body: body, Count: n.Count, Pos: n.Pos, Range: n.Range}}, tail...)
 	case wCont:
 		return nil
+	case wPush:
+		if w.keepPush {
+			return append([]*wNode{n}, next(env)...)
+		}
+		// on the wire a push field is the space it reserves (back-patched at the pop, checked at the decoder's pop)
+		res := map[string]string{"lengthField": "Int32", "crc32Field": "Int32", "varintLengthField": "Varint"}[n.Name]
+		if res == "" {
+			return append([]*wNode{n}, next(env)...)
+		}
+		return append([]*wNode{{K: wTok, Name: res, Arg: "push:" + n.Name, Pos: n.Pos}}, next(env)...)
+	case wPop:
+		if w.keepPush {
+			return append([]*wNode{n}, next(env)...)
+		}
+		return next(env)
 	case wTok:
 		e2 := env
 		if n.Sink != nil {
@@ -1113,6 +1361,15 @@ func (w *wFunc) evalCond(e ast.Expr, ver int64, env wEnv) tri {
 		}
 	}
 	return triData
+}
+
+func hasAlt(items []*wNode) bool {
+	for _, n := range items {
+		if n.K == wAlt || hasAlt(n.Body) {
+			return true
+		}
+	}
+	return false
 }
 
 func isAbort(items []*wNode) bool {
@@ -1331,6 +1588,66 @@ func (pr *wirePair) nullableReadAsPlain(x, y *wNode) bool {
 	return stores > 0 && stores == guarded
 }
 
+// unbalanced: a path of the grammar on which a pushed length/CRC field is not popped before the function ends
+// successfully (or a pop without a push). depth is the number of fields open on entry.
+func unbalanced(items []*wNode, depth int, p *Prog) string {
+	for i, n := range items {
+		switch n.K {
+		case wPush:
+			depth++
+		case wPop:
+			depth--
+			if depth < 0 {
+				return "pop without a matching push at " + p.posShort(n.Pos)
+			}
+		case wAbort:
+			return ""
+		case wEnd:
+			if depth != 0 {
+				return fmt.Sprintf("the function ends at %s with %d pushed field(s) not popped, so their length/CRC is neither written nor checked", p.posShort(n.Pos), depth)
+			}
+			return ""
+		case wAlt:
+			// alternatives carry their continuation
+			if m := unbalanced(n.Then, depth, p); m != "" {
+				return m
+			}
+			return unbalanced(n.Else, depth, p)
+		case wRep:
+			if m := unbalanced(append(append([]*wNode{}, n.Body...), &wNode{K: wEnd, Pos: n.Pos}), 0, p); m != "" {
+				return "in the loop at " + p.posShort(n.Pos) + ": " + m
+			}
+		}
+		_ = i
+	}
+	if depth != 0 {
+		return fmt.Sprintf("the function ends with %d pushed field(s) not popped", depth)
+	}
+	return ""
+}
+
+// stripEmptyEncodings: an encoder path that writes nothing at all (the value is empty: nothing is encoded and
+// nothing is there to decode) is not part of the round trip: leading alternatives lose their bare-end branch.
+func stripEmptyEncodings(e []*wNode) []*wNode {
+	for len(e) > 0 && e[0].K == wAlt {
+		t, f := e[0].Then, e[0].Else
+		bare := func(b []*wNode) bool { return len(stripEnd(b)) == 0 }
+		switch {
+		case bare(t) && !bare(f):
+			e = f
+		case bare(f) && !bare(t):
+			e = t
+		default:
+			nt, nf := stripEmptyEncodings(t), stripEmptyEncodings(f)
+			if wEqual(nt, nf) {
+				return nt
+			}
+			return []*wNode{{K: wAlt, Cond: e[0].Cond, Then: nt, Else: nf, Pos: e[0].Pos}}
+		}
+	}
+	return e
+}
+
 // pickRepBranch: for an alternative whose branches differ only by loops (one has a loop where the other has
 // nothing) and whose guard compares a count with zero, the branch with the loops.
 func pickRepBranch(alt *wNode) []*wNode {
@@ -1499,6 +1816,8 @@ type wireVerdict struct {
 	// field correspondence (only for pairs that are dual without writing nested blocks out)
 	FieldCompared, FieldSkipped int
 	FieldIssues                 []string
+	Unbalanced                  string // push/pop balance of both functions on every successful path
+	HasPush                     bool
 }
 
 func (p *Prog) wireCheck(pr *wirePair) *wireVerdict {
@@ -1511,6 +1830,28 @@ func (p *Prog) wireCheck(pr *wirePair) *wireVerdict {
 	}
 	v.Points = pr.versionPoints()
 	v.Status = "unsat"
+	for _, f := range []*wFunc{pr.enc, pr.dec} {
+		f.keepPush = true
+		for _, ver := range v.Points {
+			g := f.specialise(f.items, ver)
+			var has func(items []*wNode) bool
+			has = func(items []*wNode) bool {
+				for _, n := range items {
+					if n.K == wPush || n.K == wPop || has(n.Then) || has(n.Else) || has(n.Body) {
+						return true
+					}
+				}
+				return false
+			}
+			if has(g) {
+				v.HasPush = true
+			}
+			if m := unbalanced(g, 0, p); m != "" && v.Unbalanced == "" {
+				v.Unbalanced = fmt.Sprintf("%s.%s, version %d: %s", pr.Type, f.side, ver, m)
+			}
+		}
+		f.keepPush = false
+	}
 	for _, ver := range v.Points {
 		e := pr.enc.specialise(pr.enc.items, ver)
 		d := pr.dec.specialise(pr.dec.items, ver)
@@ -1519,6 +1860,7 @@ func (p *Prog) wireCheck(pr *wirePair) *wireVerdict {
 			v.Shapes[ver] = "(rejected: encode " + wString(e) + ", decode " + wString(d) + ")"
 			continue
 		}
+		e = stripEmptyEncodings(e)
 		v.Shapes[ver] = wString(e)
 		pr.fieldsOn = true
 		ok, msg := p.wireCompare(pr, e, d, ver, "v"+strconv.FormatInt(ver, 10))
@@ -1655,6 +1997,18 @@ func (p *Prog) wireResults(dir string) []*Result {
 			fres.Output = fmt.Sprintf("%d token comparisons over the versions compared, %d tokens skipped (source or destination not an access path)", v.FieldCompared, v.FieldSkipped)
 		}
 		out = append(out, fres)
+		// third clause: push fields are popped on every successful path
+		if v.HasPush && len(v.Unsupported) == 0 {
+			bob := &Oblig{Name: "wire/" + pr.Type + "/balanced", Kind: "wire-balanced", Func: pr.Type + ".encode", Label: "balanced", Props: p.wireProps,
+				Pos:   p.posShort(pr.enc.fi.Body.Pos()),
+				Descr: "on every path on which " + pr.Type + ".encode / " + pr.Type + ".decode succeeds, every length or CRC field that was pushed is popped (encode: the field is written; decode: the field is checked against the data)"}
+			bres := &Result{Ob: bob, Solver: "lockstep", Status: "unsat", Output: "balanced on every successful path of both functions, for every version compared"}
+			if v.Unbalanced != "" {
+				bres.Status = "sat"
+				bres.Output = v.Unbalanced
+			}
+			out = append(out, bres)
+		}
 	}
 	return out
 }
